@@ -11,3 +11,5 @@ import CnbVerif.Props.C15
 #print axioms CnbVerif.C15.main_target_rule
 #print axioms CnbVerif.C15.undetermined_main_is_error
 #print axioms CnbVerif.C15.output_names_distinct
+#print axioms CnbVerif.C15.selection_independent_of_package_dir
+#print axioms CnbVerif.C15.outcome_independent_of_package_dir
